@@ -204,10 +204,20 @@ class Report:
         self.violations = []      # (signature, replay path)
         self.known_hits = {}      # finding id -> (text, count)
 
-    def known(self, entry, detail=""):
+    def known(self, entry, detail="", replay=None):
+        """a violation that matches a listed finding; the first hit of each finding in a run also
+        leaves its minimised reproducer behind (replay/<prop>/known-<id>.json), for the reader"""
         fid = entry["id"]
         t, n = self.known_hits.get(fid, (entry.get("what", fid), 0))
         self.known_hits[fid] = (t, n + 1)
+        if n == 0 and replay is not None:
+            d = os.path.join(REPLAY, self.prop)
+            os.makedirs(d, exist_ok=True)
+            payload = dict(replay)
+            payload["property"] = self.prop
+            payload["known_finding"] = fid
+            with open(os.path.join(d, f"known-{fid}.json"), "w") as fh:
+                json.dump(payload, fh, indent=1, sort_keys=True)
 
     def violation(self, signature, replay_path):
         self.violations.append((signature, replay_path))
